@@ -63,5 +63,66 @@ def exactRefusal : Alg → Bool
       | .borda => true | .pickAPerm => true | .exact => true | .kwik => true | .copeland => true | _ => false
   | _ => false
 
+/-! ### the selector `algorithm_choice.py` (`Algorithm`, `AlgorithmEnumeration`, `get_algorithm`) -/
+
+/-- members of the enum `Algorithm`. -/
+inductive AlgName where
+  | EXACT | PARCONS | BIOCONSERT | BIOCO | KWIKSORTRANDOM | PICKAPERM | BORDACOUNT | COPELANDMETHOD
+deriving DecidableEq, Repr
+
+/-- the enum values (`algorithm_choice.py:33-43`). -/
+def AlgName.value : AlgName → Nat
+  | .EXACT => 0 | .PARCONS => 1 | .BIOCONSERT => 2 | .BIOCO => 3
+  | .KWIKSORTRANDOM => 4 | .PICKAPERM => 5 | .BORDACOUNT => 6 | .COPELANDMETHOD => 7
+
+def AlgName.ofValue? : Nat → Option AlgName
+  | 0 => some .EXACT | 1 => some .PARCONS | 2 => some .BIOCONSERT | 3 => some .BIOCO
+  | 4 => some .KWIKSORTRANDOM | 5 => some .PICKAPERM | 6 => some .BORDACOUNT | 7 => some .COPELANDMETHOD
+  | _ => none
+
+/-- the algorithm classes the selector can instantiate. -/
+inductive AlgClass where
+  | ExactAlgorithm | ParCons | BioConsert | BioCo | KwikSortRandom | PickAPerm | BordaCount | CopelandMethod
+deriving DecidableEq, Repr
+
+/-- `AlgorithmEnumeration.median_ranking_algorithms`, in list order (as repaired: the order of the enum values). -/
+def classList : List AlgClass :=
+  [.ExactAlgorithm, .ParCons, .BioConsert, .BioCo, .KwikSortRandom, .PickAPerm, .BordaCount, .CopelandMethod]
+
+/-- the constructor parameters that change the configuration: starting algorithms (BioConsert), auxiliary algorithm
+    (ParCons). `optimize`, `use_bucket_id` and `bound_for_exact` do not change the configuration term. -/
+structure Params where
+  starters : Option (List Alg) := none
+  aux : Option Alg := none
+
+/-- `cls(**parameters)` with the constructors' defaults (`parcons.py:35-52`, `bioconsert.py:239-250`, `bioco.py`). -/
+def construct : AlgClass → Params → Alg
+  | .ExactAlgorithm, _ => .exact
+  | .ParCons, p => .parCons (p.aux.getD (.bioConsert []))
+  | .BioConsert, p => .bioConsert (p.starters.getD [])
+  | .BioCo, _ => .bioCo
+  | .KwikSortRandom, _ => .kwik
+  | .PickAPerm, _ => .pickAPerm
+  | .BordaCount, _ => .borda
+  | .CopelandMethod, _ => .copeland
+
+/-- `get_algorithm(alg, parameters)`: the class at index `alg.value` of the list, instantiated. -/
+def getAlgorithm (a : AlgName) (p : Params) : Option Alg :=
+  (classList[a.value]?).map fun c => construct c p
+
+/-- `Algorithm.get_all()`. -/
+def AlgName.getAll : List AlgName :=
+  [.EXACT, .PARCONS, .BIOCONSERT, .BIOCO, .KWIKSORTRANDOM, .PICKAPERM, .BORDACOUNT, .COPELANDMETHOD]
+
+/-- `Algorithm.get_all_compatible_with_any_scoring_scheme()`. -/
+def AlgName.compatibleWithAny : List AlgName :=
+  [.EXACT, .PARCONS, .BIOCONSERT, .KWIKSORTRANDOM, .COPELANDMETHOD]
+
+/-- the class an enum member names. -/
+def AlgName.named : AlgName → AlgClass
+  | .EXACT => .ExactAlgorithm | .PARCONS => .ParCons | .BIOCONSERT => .BioConsert | .BIOCO => .BioCo
+  | .KWIKSORTRANDOM => .KwikSortRandom | .PICKAPERM => .PickAPerm | .BORDACOUNT => .BordaCount
+  | .COPELANDMETHOD => .CopelandMethod
+
 end Model
 end Corankco
